@@ -60,6 +60,10 @@ pub enum Op {
   /// arm subscriber k: inside its next callback it peeks and subscribes a
   /// fresh subscriber (who must be handed the item being delivered)
   ArmInside(usize),
+  /// `Subscription::unsubscribe` on a handle of the subject itself: nothing is
+  /// delivered any more, yet the value keeps being stored and a new subscriber
+  /// is still handed the current one
+  UnsubSubject,
 }
 
 #[derive(Clone, Debug, Serialize, Deserialize)]
@@ -85,6 +89,7 @@ trait BDriver {
   fn peek(&self, via: usize) -> i64;
   fn complete(&mut self, via: usize);
   fn error(&mut self, via: usize, e: E);
+  fn unsubscribe_subject(&mut self, via: usize);
   fn handles(&self) -> usize;
 }
 
@@ -141,6 +146,10 @@ macro_rules! bdriver {
         let i = self.pick(via);
         self.hs[i].take().unwrap().error(e)
       }
+      fn unsubscribe_subject(&mut self, via: usize) {
+        let i = self.pick(via);
+        Subscription::unsubscribe(self.hs[i].take().unwrap())
+      }
       fn handles(&self) -> usize {
         self.hs.iter().filter(|h| h.is_some()).count()
       }
@@ -162,13 +171,14 @@ impl Scenario for C12Des {
   fn components(&self) -> (&'static [&'static str], &'static [&'static str]) {
     (&["subject/behavior_subject.rs", "behavior.rs (peek, next_by)", "subject.rs"], &[])
   }
-  fn generate(&self, rng: &mut Rng, _tier: Tier) -> Value {
-    let len = rng.range(2, 12);
+  fn generate(&self, rng: &mut Rng, tier: Tier) -> Value {
+    let deep = deepen(rng, tier);
+    let len = rng.range(2, 12 * deep);
     let mut steps = Vec::new();
     let mut subs = 0;
     for i in 0..len {
       let late = i + 3 >= len;
-      let op = match rng.weighted(&[6, 3, 2, 5, 2, 4, if late { 2 } else { 0 }, if late { 2 } else { 0 }, 2]) {
+      let op = match rng.weighted(&[6, 3, 2, 5, 2, 4, if late { 2 } else { 0 }, if late { 2 } else { 0 }, 2, if i * 2 >= len { 1 } else { 0 }]) {
         0 => Op::Next,
         1 => Op::NextBy,
         2 => Op::CloneHandle,
@@ -180,6 +190,7 @@ impl Scenario for C12Des {
         5 => Op::Peek,
         6 => Op::Complete,
         7 => Op::Error,
+        9 => Op::UnsubSubject,
         _ => {
           subs += 1;
           Op::ArmInside(rng.below(subs.max(1)))
@@ -320,6 +331,17 @@ impl Scenario for C12Des {
           if p != value && violation.is_none() {
             violation = Some(Violation { rule: "c12.peek".into(), site: site.clone(), detail: format!("`{}`: peek() = {}, most recent value is {}", trace.trim(), p, value) });
           }
+        }
+        Op::UnsubSubject => {
+          d.unsubscribe_subject(st.via);
+          if !finished {
+            live.clear();
+            armed.clear();
+            finished = true;
+          } else {
+            post_terminal += 1;
+          }
+          trace.push_str("unsubscribe-subject ");
         }
         Op::Complete | Op::Error => {
           if st.op == Op::Complete {
